@@ -112,8 +112,11 @@ func simplex(initialBasic []int, c []float64, A mat.Matrix, b []float64, tol flo
 		if err != nil {
 			return math.NaN(), nil, nil, ErrSingular
 		}
+		// The error of the solve grows with the size of the solution:
+		// a zero of x = (0, 2, 2, 0) may come out as -1.05e-13.
+		tol := initPosTol * math.Max(1, floats.Norm(x, math.Inf(1)))
 		for _, v := range x {
-			if v < -initPosTol {
+			if v < -tol {
 				return math.NaN(), nil, nil, ErrInfeasible
 			}
 		}
